@@ -88,7 +88,14 @@ def case(draw, avoid=frozenset()):
 
 @st.composite
 def raw_case(draw):
-    kind = draw(st.sampled_from(["bin", "bin", "bin", "un", "cmp", "cmp", "cast", "cast", "cast", "fbin", "fcmp", "i2f", "i2f", "f2i", "f2f", "boolchar"]))
+    kind = draw(st.sampled_from(["bin", "bin", "bin", "un", "cmp", "cmp", "cast", "cast", "cast", "fbin", "fcmp", "i2f", "i2f", "f2i", "f2f", "boolchar", "weak"]))
+    if kind == "weak":
+        # unannotated literals that never meet a typed value keep the weak type {uint}, compiled as a signed i32
+        op = draw(st.sampled_from(["/", "%", ">>", "<", "<=", ">", ">="]))
+        small = st.one_of(st.integers(0, 40), st.integers(0, (1 << 31) - 1))
+        a, b = draw(small), draw(small)
+        c = draw(st.integers(0, 31)) if op == ">>" else draw(st.one_of(st.integers(1, 9), st.integers(1, (1 << 31) - 1)))
+        return {"k": "weak", "op": op, "a": a, "b": b, "c": c}
     if kind in ("bin", "un", "cmp"):
         t = draw(st.sampled_from(INTS))
         a = draw(int_value(t))
@@ -212,6 +219,8 @@ def expected(c):
     if k == "un":
         t = INT_BY_NAME[c["t"]]
         return ("int", t.name, t.wrap(-c["a"] if c["op"] == "-" else ~c["a"]))
+    if k == "weak":
+        return ("bool", True)
     if k == "cmp":
         a, b = c["a"], c["b"]
         return ("bool", {"==": a == b, "!=": a != b, "<": a < b, "<=": a <= b, ">": a > b, ">=": a >= b}[c["op"]])
@@ -285,6 +294,16 @@ def case_fn(i, c):
     if k == "bin":
         t = c["t"]
         return f"{f} :: (a: {t}, b: {t}) -> {t} {{ a {c['op']} b }}", f"{f}({int_src(INT_BY_NAME[t], c['a'])}, {int_src(INT_BY_NAME[t], c['b'])})"
+    if k == "weak":
+        d, op = c["a"] - c["b"], c["op"]
+        if op in ("<", "<=", ">", ">="):
+            truth = {"<": d < c["c"], "<=": d <= c["c"], ">": d > c["c"], ">=": d >= c["c"]}[op]
+            tail = f"(d {op} c) == {bool_src(truth)}"
+        else:
+            q = {"/": lambda: trunc_div(d, c["c"]), "%": lambda: d - trunc_div(d, c["c"]) * c["c"], ">>": lambda: d >> c["c"]}[op]()
+            k_, m_ = (-q, 0) if q < 0 else (0, q)
+            tail = f"q := d {op} c; k := {k_}; m := {m_}; q + k == m"
+        return f"{f} :: () -> bool {{ a := {c['a']}; b := {c['b']}; d := a - b; c := {c['c']}; {tail} }}", f"{f}()"
     if k == "un":
         t = c["t"]
         return f"{f} :: (a: {t}) -> {t} {{ {c['op']}a }}", f"{f}({int_src(INT_BY_NAME[t], c['a'])})"
@@ -359,6 +378,8 @@ def build_program(cases, modes=("rt", "ct")):
 
 def describe(c):
     k = c["k"]
+    if k == "weak":
+        return f"weak {{uint}} locals: ({c['a']} - {c['b']}) {c['op']} {c['c']}"
     if k in ("bin", "cmp", "fbin", "fcmp", "boolops"):
         return f"{c.get('t', 'bool')}: {c['a']} {c['op']} {c['b']}"
     if k == "un":
@@ -382,6 +403,8 @@ def shape_key(c, mode):
 
 def nontrivial(c):
     k = c["k"]
+    if k == "weak":
+        return c["a"] < c["b"]
     if k in ("bin", "un", "cmp"):
         b = set(boundary(INT_BY_NAME[c["t"]]))
         return c["a"] in b or c.get("b") in b
